@@ -487,6 +487,100 @@ struct Sys {
     }
 };
 
+// ---- enumerated families next to the state search (shard 0) -------------------------------------------------------------------
+struct Got { std::string addr, types; uint32_t u32; };
+static void capture(rtosc::AutomationMgr &m, std::vector<Got> &got)
+{
+    m.backend = [&got](const char *msg) {
+        size_t len = rtosc_message_length(msg, 512);
+        ref::Decoded d = ref::decode((const uint8_t *)msg, len ? len : 512);
+        if(d.ok && d.args.size() <= 1) got.push_back({d.addr, d.types, d.args.empty() ? 0u : d.args[0].u32});
+        else got.push_back({"<undecodable or empty message>", "", 0});
+    };
+}
+static std::string show_got(const std::vector<Got> &g) { std::string s = std::to_string(g.size()) + " message(s)"; for(auto &x : g) { char b[24]; snprintf(b, sizeof b, " %08x", x.u32); s += " [" + x.addr + " " + x.types + b + "]"; } return s; }
+static uint32_t fbits(float f) { uint32_t u; memcpy(&u, &f, 4); return u; }
+
+// every ordinary controller number on three channels: learn order, "drives exactly its slot", no effect on an NRPN-bound slot
+static void controller_sweep()
+{
+    if(vp::ctx().shard != 0) return;
+    auto special = [](int c) { return c == 6 || c == 38 || c == 98 || c == 99; };
+    for(int ch : {0, 9, 15}) for(int X = 0; X < 128; ++X) {
+        if(special(X)) continue;
+        std::string cid = "ccsweep|ch" + std::to_string(ch) + "|cc" + std::to_string(X);
+        if(!vp::want(cid)) continue;
+        vp::current_case() = cid; vp::state(); vp::eval(); vp::nontrivial(vp::fnv(cid));
+        int Y = (X + 1) % 128; while(special(Y)) Y = (Y + 1) % 128;
+        const std::string cls = "any-controller-number";
+        {   // A: three learners, three controllers
+            rtosc::AutomationMgr m(3, 1, 16); m.set_ports(g_ports);
+            std::vector<Got> got; capture(m, got);
+            m.createBinding(0, "/vol", true); m.createBinding(1, "/foo", true); m.createBinding(2, "/on", true);
+            auto ev = [&](int c, int k, int v) { got.clear(); m.handleMidi(c, k, v); vp::transition(); };
+            auto expect1 = [&](const char *what, const char *addr, const char *types, uint32_t v) {
+                if(got.size() != 1 || got[0].addr != addr || got[0].types != types || (types[0] != 'T' && types[0] != 'F' && got[0].u32 != v)) {
+                    vp::violation(std::string("bound-controller-drives-exactly-its-slot|handleMidi-cc|") + cls, cid, std::string(what) + " (channel " + std::to_string(ch) + ", controller " + std::to_string(X) + "): expected one message to " + addr + ", got " + show_got(got)); return false; }
+                return true;
+            };
+            ev(ch, X, 64);                                             // learned by slot 0 (what the learning event itself emits is not specified)
+            ev(ch, X, 127); bool ok = expect1("first learner /vol after its controller sent 127", "/vol", "i", 127);
+            if(ok) { ev(ch, X, 0); ok = expect1("first learner /vol after its controller sent 0", "/vol", "i", 0); }
+            if(ok) { ev(ch, Y, 127); ev(ch, Y, 0); ok = expect1("second learner /foo after the second controller sent 0", "/foo", "f", fbits(-1.0f)); }
+            if(ok) { ev(ch, X, 127); ok = expect1("first controller again", "/vol", "i", 127); }
+            if(ok) { int ch2 = (ch + 1) % 16; ev(ch2, X, 0); ev(ch2, X, 127); ok = expect1("third learner /on after the same controller number on another channel sent 127", "/on", "T", 0); }
+        }
+        {   // B: an NRPN-bound slot and one learner
+            rtosc::AutomationMgr m(2, 1, 16); m.set_ports(g_ports);
+            std::vector<Got> got; capture(m, got);
+            m.createBinding(0, "/vol", true);
+            m.handleMidi(0, 99, 1); m.handleMidi(0, 98, 2); m.handleMidi(0, 6, 64); m.handleMidi(0, 38, 0);     // complete NRPN sequence: learned by slot 0
+            m.createBinding(1, "/foo", true);
+            got.clear(); m.handleMidi(ch, X, 127); vp::transition(2);
+            bool touched = false; for(auto &g : got) if(g.addr != "/foo") touched = true;
+            if(touched) vp::violation("unrelated-controller-drives-bound-slot|handleMidi-cc|nrpn-bound-slot", cid, "ordinary controller " + std::to_string(X) + " on channel " + std::to_string(ch) + " arrived while slot 0 is bound to NRPN 1:2: " + show_got(got));
+            else {
+                got.clear(); m.handleMidi(ch, X, 0); vp::transition();
+                if(got.size() != 1 || got[0].addr != "/foo" || got[0].types != "f" || got[0].u32 != fbits(-1.0f))
+                    vp::violation("learners-bound-in-order|handleMidi-cc|behind-nrpn-bound-slot", cid, "controller " + std::to_string(X) + " on channel " + std::to_string(ch) + " should have been learned by /foo and now drive it to -1: " + show_got(got));
+            }
+        }
+        vp::outcome("controller-sweep"); vp::trace();
+    }
+    vp::bound("controller_sweep", "every controller number 0..127 except 6,38,98,99 on channels 0,9,15: three learners bound in order by three controllers (same number on another channel is another controller), each drives exactly its parameter; an ordinary controller next to an NRPN-bound slot");
+}
+
+// bound parameter addresses of every length the slot can store (2..127 characters), int, float and toggle parameters
+static void nop_cb(const char *, rtosc::RtData &) {}
+static void long_paths()
+{
+    if(vp::ctx().shard != 0) return;
+    for(int L = 2; L <= 127; ++L) for(int kind = 0; kind < 3; ++kind) {
+        std::string cid = "longpath|L" + std::to_string(L) + "|k" + std::to_string(kind);
+        if(!vp::want(cid)) continue;
+        vp::current_case() = cid; vp::state(); vp::eval(); vp::nontrivial(vp::fnv(cid));
+        std::string leaf(L - 1, 'n'); for(int k = 0; k < L - 1; k += 6) leaf[k] = (char)('a' + (k / 6) % 26);
+        std::string pname = leaf + (kind == 0 ? "::i" : kind == 1 ? "::f" : "::T:F"), path = "/" + leaf;
+        const char *meta = kind == 2 ? rProp(parameter) rDoc("t") : kind == 1 ? rProp(parameter) rLinear(-1, 10) rDoc("f") : rProp(parameter) rLinear(0, 127) rDoc("i");
+        rtosc::Ports ports({rtosc::Port{pname.c_str(), meta, nullptr, nop_cb}});
+        rtosc::AutomationMgr m(1, 1, 16); m.set_ports(ports);
+        std::vector<Got> got; capture(m, got);
+        m.createBinding(0, path.c_str(), false);
+        const std::string cls = std::string(kind == 0 ? "linear-int" : kind == 1 ? "linear-float" : "toggle") + (L >= 120 ? ",address>=120" : L >= 64 ? ",address>=64" : ",address<64");
+        struct Step { float v; uint32_t i, f; const char *t; };
+        for(Step st : {Step{1.0f, 127, fbits(10.0f), "T"}, Step{0.0f, 0, fbits(-1.0f), "F"}}) {
+            got.clear(); m.setSlot(0, st.v); vp::transition();
+            bool ok = got.size() == 1 && got[0].addr == path;
+            if(ok && kind == 0) ok = got[0].types == "i" && got[0].u32 == st.i;
+            if(ok && kind == 1) ok = got[0].types == "f" && got[0].u32 == st.f;
+            if(ok && kind == 2) ok = got[0].types == st.t;
+            if(!ok) { vp::violation("message-to-bound-address|setSlot|" + cls, cid, "parameter address of " + std::to_string(L) + " characters, slot value " + fstr(st.v) + ": " + show_got(got)); break; }
+        }
+        vp::outcome("long-path:" + cls); vp::trace();
+    }
+    vp::bound("long_paths", "a bound parameter address of every length 2..127 (what a slot stores), int / float / toggle parameter, slot values 1 and 0");
+}
+
 int main(int argc, char **argv)
 {
     vp::init(argc, argv, "C19");
@@ -495,6 +589,9 @@ int main(int argc, char **argv)
     vp::bound("alphabet", "createBinding(slot,4 paths,learn|nolearn); clearSlot(slot); clearSlotSub(slot,sub); gain{100,50,-100}+updateMapping and offset{0,10}+updateMapping on bound subs; "
                           "handleMidi(ch0, cc{1,2,3}, val{0,64,127}); complete NRPN sequence 99,98,6,38 for ids {1:2,0:5} with values {0,8192,16383}; "
                           "probe in every state: setSlot(slot, v) for v in {-0.5,0,0.25,0.5,0.75,1,1.5} on every slot");
+    if(!vp::replaying() || vp::ctx().replay.compare(0, 8, "ccsweep|") == 0) controller_sweep();
+    if(!vp::replaying() || vp::ctx().replay.compare(0, 9, "longpath|") == 0) long_paths();
+    if(vp::replaying() && (vp::ctx().replay.compare(0, 8, "ccsweep|") == 0 || vp::ctx().replay.compare(0, 9, "longpath|") == 0)) return vp::finish();
     if(vp::replaying()) { bfs::Engine<Sys> E; E.run(); return vp::finish(); }
     const std::string out0 = vp::ctx().out;
     const std::string stem = out0.size() > 5 ? out0.substr(0, out0.size() - 5) : std::string("C19");
